@@ -93,6 +93,10 @@ func (g *FuncGen) globalGet(st *State, o types.Object) Val {
 		g.heapKeys[key] = s
 		g.emit(fmt.Sprintf("(declare-const %s %s)", n, s))
 		g.typeFacts(nil, n, o.Type())
+		if g.P.constErrorVar(o) {
+			// package-level error value created once by errors.New and never reassigned anywhere in the repository
+			g.emit(fmt.Sprintf("(assert (not (= %s 0)))", n))
+		}
 	}
 	if g.entry != nil {
 		if _, ok := g.entry.heap[key]; !ok {
@@ -268,6 +272,9 @@ func (g *FuncGen) evIdent(x *ast.Ident, st *State) Val {
 	switch ob := o.(type) {
 	case *types.Nil:
 		ty := g.typeOf(x)
+		if b, ok := ty.(*types.Basic); ok && b.Kind() == types.UntypedNil {
+			return Val{"0", ty, "Int"}
+		}
 		return Val{zeroOf(sortOf(ty)), ty, sortOf(ty)}
 	case *types.Const:
 		if v, ok := g.constVal(types.TypeAndValue{Type: ob.Type(), Value: ob.Val()}); ok {
@@ -354,7 +361,7 @@ func (g *FuncGen) evIndex(x *ast.IndexExpr, st *State) Val {
 		v := Val{fmt.Sprintf("(select (select %s %s) %s)", val, base.T, k.T), u.Elem(), sortOf(u.Elem())}
 		// reading a missing key yields the zero value
 		z := zeroOf(v.S)
-		t := fmt.Sprintf("(ite (select (select %s %s) %s) %s %s)", has, base.T, k.T, v.T, z)
+		t := fmt.Sprintf("(ite (and (not (= %s 0)) (select (select %s %s) %s)) %s %s)", base.T, has, base.T, k.T, v.T, z)
 		r := Val{t, u.Elem(), v.S}
 		return r
 	}
@@ -402,6 +409,7 @@ func (g *FuncGen) mapArrays(st *State, m *types.Map) (has, val string) {
 		g.heapKeys[vk] = "(Array " + ks + " " + vs + ")"
 		g.emit(fmt.Sprintf("(declare-const %s_0 (Array Int (Array %s Bool)))", heapName(hk), ks))
 		g.emit(fmt.Sprintf("(declare-const %s_0 (Array Int (Array %s %s)))", heapName(vk), ks, vs))
+		g.mapWF(m, heapName(hk)+"_0", heapName(vk)+"_0", "alloc_0")
 	}
 	return g.heapGet(st, hk, g.heapKeys[hk]), g.heapGet(st, vk, g.heapKeys[vk])
 }
@@ -489,12 +497,43 @@ func (g *FuncGen) evBinary(x *ast.BinaryExpr, st *State) Val {
 		}
 		return Val{fmt.Sprintf("(%s %s %s)", op, l.T, r.T), types.Typ[types.Bool], "Bool"}
 	}
-	l := g.ev(x.X, st)
-	r := g.ev(x.Y, st)
+	var l, r Val
+	switch {
+	case isNilIdent(g, x.Y):
+		l = g.ev(x.X, st)
+		r = Val{zeroOf(l.S), l.Ty, l.S}
+	case isNilIdent(g, x.X):
+		r = g.ev(x.Y, st)
+		l = Val{zeroOf(r.S), r.Ty, r.S}
+	default:
+		l = g.ev(x.X, st)
+		r = g.ev(x.Y, st)
+	}
 	ty := g.typeOf(x)
 	src := g.exprText(x)
 	switch x.Op {
 	case token.EQL, token.NEQ:
+		if l.S == "Bytes" && (isNilIdent(g, x.Y) || isNilIdent(g, x.X)) {
+			// a nil []byte is identified with the empty one (stated assumption)
+			eq := fmt.Sprintf("(= (blen %s) 0)", l.T)
+			if isNilIdent(g, x.X) {
+				eq = fmt.Sprintf("(= (blen %s) 0)", r.T)
+			}
+			if x.Op == token.NEQ {
+				eq = "(not " + eq + ")"
+			}
+			return Val{eq, types.Typ[types.Bool], "Bool"}
+		}
+		if strings.HasPrefix(l.S, "(Sq ") && (isNilIdent(g, x.Y) || isNilIdent(g, x.X)) {
+			eq := fmt.Sprintf("(= (slen %s) 0)", l.T)
+			if isNilIdent(g, x.X) {
+				eq = fmt.Sprintf("(= (slen %s) 0)", r.T)
+			}
+			if x.Op == token.NEQ {
+				eq = "(not " + eq + ")"
+			}
+			return Val{eq, types.Typ[types.Bool], "Bool"}
+		}
 		eq := g.eqTerm(l, r)
 		if x.Op == token.NEQ {
 			eq = "(not " + eq + ")"
@@ -569,11 +608,11 @@ func (g *FuncGen) evComposite(x *ast.CompositeLit, st *State, addr bool) Val {
 				name := kv.Key.(*ast.Ident).Name
 				for j := 0; j < u.NumFields(); j++ {
 					if u.Field(j).Name() == name {
-						vals[j] = g.ev(kv.Value, st).T
+						vals[j] = coerce(g.ev(kv.Value, st), u.Field(j).Type()).T
 					}
 				}
 			} else {
-				vals[i] = g.ev(el, st).T
+				vals[i] = coerce(g.ev(el, st), u.Field(i).Type()).T
 			}
 		}
 		if addr {
@@ -651,4 +690,31 @@ func (g *FuncGen) allocMap(st *State, m *types.Map) string {
 	hk := "$map." + sanitize(m.String()) + ".has"
 	st.heap[hk] = fmt.Sprintf("(store %s %s ((as const (Array %s Bool)) false))", has, r, sortOf(m.Key()))
 	return r
+}
+
+func isNilIdent(g *FuncGen, e ast.Expr) bool {
+	id, ok := unparen(e).(*ast.Ident)
+	if !ok {
+		return false
+	}
+	_, isNil := g.info.ObjectOf(id).(*types.Nil)
+	return isNil
+}
+
+// coerce adapts an untyped nil to the sort of its destination.
+func coerce(v Val, to types.Type) Val {
+	if b, ok := v.Ty.(*types.Basic); ok && b.Kind() == types.UntypedNil && to != nil {
+		s := sortOf(to)
+		return Val{zeroOf(s), to, s}
+	}
+	return v
+}
+
+// mapWF: typed-heap invariant for maps holding references: stored values are nil or allocated.
+func (g *FuncGen) mapWF(m *types.Map, has, val, alloc string) {
+	if !isRefType(m.Elem()) {
+		return
+	}
+	ks := sortOf(m.Key())
+	g.emit(fmt.Sprintf("(assert (forall ((r Int) (k %s)) (! (=> (and (select %s r) (select (select %s r) k)) (or (= (select (select %s r) k) 0) (select %s (select (select %s r) k)))) :pattern ((select (select %s r) k)))))", ks, alloc, has, val, alloc, val, val))
 }
